@@ -128,6 +128,7 @@ pub fn one(rep: &mut Reporter, seed: u64, thorough: bool, checks: bool) -> Optio
 }
 
 fn one_inner(rep: &mut Reporter, seed: u64, thorough: bool, checks: bool) -> Option<(World, Case)> {
+    rep.case(seed);
     let mut rng = Rng::new(seed);
     let nd = 1 + rng.usize(5);
     let nactors = nd + 3; // nd delegates, 2 candidates, 1 pure stranger
